@@ -67,11 +67,13 @@ func (m *Mutex) Unlock() {
 // Held reports whether the mutex is held in the controlled execution (for state dumps).
 func (m *Mutex) Held() (bool, string) { return m.held, m.owner }
 
-// RWMutex is a drop-in for sync.RWMutex.
+// RWMutex is a drop-in for sync.RWMutex. As with the real one, a blocked Lock call keeps new
+// readers out (writer preference), so a recursive read lock can deadlock against a writer.
 type RWMutex struct {
 	mu      sync.RWMutex
 	writer  bool
 	readers int
+	pending int // writers waiting in Lock
 }
 
 func (m *RWMutex) Lock() {
@@ -79,7 +81,9 @@ func (m *RWMutex) Lock() {
 		m.mu.Lock()
 		return
 	}
+	m.pending++
 	sched.Block("RWMutex.Lock", func() bool { return !m.writer && m.readers == 0 })
+	m.pending--
 	m.writer = true
 	raceAcquire(m)
 }
@@ -101,7 +105,7 @@ func (m *RWMutex) RLock() {
 		m.mu.RLock()
 		return
 	}
-	sched.Block("RWMutex.RLock", func() bool { return !m.writer })
+	sched.Block("RWMutex.RLock", func() bool { return !m.writer && m.pending == 0 })
 	m.readers++
 	raceAcquire(m)
 }
